@@ -280,6 +280,7 @@ pub fn child_main() -> i32 {
     let joins: Arc<Mutex<Vec<Value>>> = Arc::new(Mutex::new(Vec::new()));
     let mut join_threads = vec![];
     let mut cancels: Vec<Value> = vec![];
+    let mut cancel_targets: std::collections::HashSet<usize> = std::collections::HashSet::new();
     let pick_task = |ix: u16| -> Option<Arc<TaskRec>> {
         let t = TASKS.lock().unwrap();
         if t.is_empty() {
@@ -370,7 +371,9 @@ pub fn child_main() -> i32 {
                         let (busy_gates, started_before) = {
                             let t = TASKS.lock().unwrap();
                             (
-                                t.iter().filter(|r| matches!(r.body, Body::GateSuspended | Body::GateSpinning | Body::GateSpinThenDelay(_)) && r.started.load(Ordering::SeqCst) != 0 && r.ended.load(Ordering::SeqCst) == 0).count(),
+                                // a gate that was itself the target of a cancel may have been ended by
+                                // it without ever reaching its end: it no longer holds a worker for sure
+                                t.iter().filter(|r| matches!(r.body, Body::GateSuspended | Body::GateSpinning | Body::GateSpinThenDelay(_)) && r.started.load(Ordering::SeqCst) != 0 && r.ended.load(Ordering::SeqCst) == 0 && !cancel_targets.contains(&r.k)).count(),
                                 rec.started.load(Ordering::SeqCst) != 0,
                             )
                         };
@@ -379,6 +382,7 @@ pub fn child_main() -> i32 {
                                 m.insert(id, (u64::from(park_ms), rec.clone()));
                             }
                         }
+                        cancel_targets.insert(rec.k);
                         let parked0 = CANCEL_PARKED.load(Ordering::SeqCst);
                         let at = now();
                         EventLoops::try_cancel_task(id);
